@@ -89,6 +89,8 @@ class Aggregation(keras.layers.Layer):
 
   @classmethod
   def from_config(cls, config, custom_objects=None):
+    # Do not modify the caller's dictionary.
+    config = dict(config)
     model = keras.utils.legacy.deserialize_keras_object(
         config.pop('model'), custom_objects=custom_objects
     )
